@@ -203,10 +203,11 @@ func c15Labels(name string) []string {
 	name = strings.TrimSuffix(name, ".")
 	parts := strings.Split(name, ".")
 	for i, p := range parts {
+		p = strings.ToLower(p) // Unicode-aware, before the punycode conversion (BÜCHER = bücher)
 		if a, err := idna.ToASCII(p); err == nil && a != "" {
-			p = a
+			p = strings.ToLower(a)
 		}
-		parts[i] = strings.ToLower(p)
+		parts[i] = p
 	}
 	return parts
 }
